@@ -806,7 +806,7 @@ theorem bool_round_trip (b : Bool) : applyConv .none (.value (.bool b)) = .value
 
 /-- shadow: an object handed out through a capsule (`cxx_to_c`: result / constructor wrapper) and
     handed back as an argument or as `this` (`c_to_cxx`) is the same object. -/
-theorem shadow_round_trip (h : Heap) (k : RKind) (hk : k = .shadowPtr ∨ k = .shadowRef) (o tail fresh idtor : Nat) :
+theorem shadow_round_trip (k : RKind) (hk : k = .shadowPtr ∨ k = .shadowRef) (o tail fresh idtor : Nat) :
     let r : CxxRet := if k = .shadowPtr then .ptr (some o) else .ref o
     let res := expectedRes k r tail fresh idtor
     ∀ h' : Heap, (∀ cell v, res.capsule = some (cell, v) → h' cell = v) →
@@ -842,12 +842,12 @@ def convRowOk : Nat × Nat × List Nat × Nat × List Nat → Bool
   | (2, 0, [], 3, [2, 12]) => true
   | (0, 1, [1], 1, [2]) => true
   | (0, 5, [1], 5, [2]) => true
-  | (b, 0, [], 0, []) => b ≠ 1 && b ≠ 2
+  | (b, 0, [], 0, []) => b ≠ 1
   | _ => false
 
 /-- every typemap's conversion patterns form one of the mutually inverse pairs, with `{c_var}` as
     the operand of c_to_cxx and `{cxx_var}` as the operand of cxx_to_c; every class typemap has the
-    shadow pair and `std::string` the `c_str()` pattern; at least one enum and one class are present. -/
+    shadow pair; the `c_str()` pattern occurs only for base string; at least one enum and one class are present. -/
 theorem table_typemap_pairs :
     typemapConv.all convRowOk = true ∧
     typemapConv.any (fun r => r.2.1 == 1) = true ∧ typemapConv.any (fun r => r.1 == 1) = true := by
